@@ -11,7 +11,7 @@ assert rec
 wt = f"/tmp/wt/{pid}"
 print(f"""You are helping evaluate bug-detection tooling by seeding realistic regressions into a Python library.
 
-Repository: a scratch git worktree of Query-farm/vgi-rpc-python at {wt} (work ONLY there; never touch /repo, never read or use /verif). Python: /venv/bin/python (the library's dependencies are installed there). No network is available.
+Repository: a scratch git worktree of Query-farm/vgi-rpc-python at {wt} (HEAD of the current development branch, which already contains a number of recent 'fix:' commits; work ONLY there; never touch /repo, never read or use /verif). Python: /venv/bin/python (the library's dependencies are installed there). No network is available.
 
 The property below is supposed to hold for this library:
 
@@ -20,7 +20,7 @@ The property below is supposed to hold for this library:
 Your task: produce TWO independent changes (mutations) to the library source under {wt}/vgi_rpc/ (not the tests, not docs) that each BREAK this property while
  (a) the package still imports and type-checks as far as the suite checks it, and
  (b) the existing pinned test suite still passes. Run it with:  /venv/bin/python /opt/suite/run_suite.py {wt}
-     (takes roughly 3-10 minutes; success = exit code 0 and a line containing 'stable_not_passed=0'. Several hundred HTTP-over-real-socket tests fail in this sandbox regardless of your change; only the 'stable' set is judged by that script. You can pass extra pytest args after the path to run a subset first, e.g. `/opt/suite/run_suite.py {wt} tests/test_rpc.py`).
+     (takes roughly 5-30 minutes depending on machine load; success = a line containing 'stable_not_passed=0', OR 'stable_not_passed=1' where the only item is `tests.__init__::mypy-status` — that item fails in fresh worktrees of this sandbox regardless of any change (missing `tenacity` stub), treat it as environmental. Several hundred HTTP-over-real-socket tests fail in this sandbox regardless of your change; only the 'stable' set is judged by that script. The machine is shared and heavily loaded: timeout-sensitive tests may flake (the script re-runs a few failures in isolation; re-run others yourself in isolation before blaming your change), and a full run occasionally hangs in `tests/test_conformance.py::TestLargeData::test_large_list[subprocess]` — if a run makes no progress for 15 minutes, kill that xdist worker (`pkill -9 -f "{wt}/tests/serve_conformance"`) or restart with `--deselect` of that test. Run targeted test files first (`/opt/suite/run_suite.py {wt} tests/test_x.py ...`), and the full suite once per mutation at the end.
 Each change must need something SPECIFIC to manifest: a particular thread interleaving, a crash/fault at a particular point, a multi-step sequence of operations, an unusual input, a particular configuration, or two cooperating code sites that each look fine alone. It must NOT be something ordinary use would expose at once. Make each look like a plausible small refactor / optimisation / regression a maintainer could really write (a few lines; not a sabotage comment, no dead code, no renamed-for-no-reason identifiers). The two mutations should touch different mechanisms/sites where feasible.
 
 For each mutation n in (1, 2) deliver, in /tmp/seed_out/{pid}/<n>/ :
